@@ -19,29 +19,15 @@ open Gp Gp.Udp Gp.SBuf
 
 /-- Every successfully decoded layer is well-formed (all fields in range)… -/
 theorem decoded_wf (old : Layer) (data foreign : Bytes) (l : Layer) (t : Bool)
-    (h : decodeUdp old data foreign = .ok (l, t)) : wf l := by
-  unfold decodeUdp at h
-  rw [decode_eq] at h
-  dsimp only at h
-  split at h
-  · cases h
-  · rename_i he
-    cases h
-    exact (decodeSpec_shape old data (by simpa using he)).wf
+    (h : decodeUdp old data foreign = .ok (l, t)) : wf l :=
+  (decodeUdp_shape old data foreign l t h).wf
 
 /-- … and has the full shape of a parsed header: Contents are the first 8 input bytes and equal
     the big-endian rendering of the fields, Length is 0 or ≥ 8, Contents ++ Payload is a prefix
     of the input, and without truncation Length is 0 (payload = everything) or exact. -/
 theorem decoded_shape (old : Layer) (data foreign : Bytes) (l : Layer) (t : Bool)
-    (h : decodeUdp old data foreign = .ok (l, t)) : DecodedShape data l t := by
-  unfold decodeUdp at h
-  rw [decode_eq] at h
-  dsimp only at h
-  split at h
-  · cases h
-  · rename_i he
-    cases h
-    exact decodeSpec_shape old data (by simpa using he)
+    (h : decodeUdp old data foreign = .ok (l, t)) : DecodedShape data l t :=
+  decodeUdp_shape old data foreign l t h
 
 /-- Round trip.  For any buffer `b` holding the payload, any old layer object and any spare
     capacity on the decoding side. -/
@@ -77,9 +63,13 @@ theorem roundtrip (l : Layer) (b : SBuf) (hI : Gp.C18.Inv b) (hw : wf l) (hp : p
     rcases hlen with ⟨h0, _⟩ | ⟨h1, _⟩
     · left; rw [e4, h0]
     · right; rw [e4, h1]
-  refine ⟨b', lf, _, hb, ?_, ?_⟩
+  refine ⟨b', lf,
+    { srcPort := lf.srcPort, dstPort := lf.dstPort, length := lf.length, checksum := lf.checksum,
+      sPort := putBe16 lf.srcPort, dPort := putBe16 lf.dstPort, contents := header lf,
+      payload := contents b, pseudo := old.pseudo }, hb, ?_, ?_⟩
   · unfold decodeUdp
     rw [decode_eq, hc, hx, decodeSpec_header old lf (contents b) hwf hl]
+    rfl
   · refine ⟨⟨rfl, rfl, rfl, rfl⟩, rfl, ?_, e1, e2, e3, e4, ?_, hwf⟩
     · rw [hc, hx]; simp [header, putBe16]
     · rcases hlen with ⟨h0, hbig⟩ | ⟨h1, _⟩
@@ -95,7 +85,7 @@ theorem reserialize_fixpoint (l : Layer) (b : SBuf) (hI : Gp.C18.Inv b) (hw : wf
     (b₂ : SBuf) (hI₂ : Gp.C18.Inv b₂) (hc₂ : contents b₂ = l'.payload) :
     ∃ b'' l'', serializeUdp { l' with pseudo := l.pseudo } b₂ true true = .ok (b'', l'') ∧
       contents b'' = contents b' ∧ sameFields l'' l' := by
-  obtain ⟨b1, lf1, l1, hs1, hd1, hsame, hpay, _, _, _, e3, _, _, _⟩ := roundtrip l b hI hw hp hf old foreign
+  obtain ⟨b1, lf1, l1, hs1, hd1, hsame, hpay, _, _, _, e3, _, _, hwlf⟩ := roundtrip l b hI hw hp hf old foreign
   rw [hs] at hs1; cases hs1
   rw [hd] at hd1; cases hd1
   -- serialising lf again is a fixpoint; l' has the same fields and pseudo as lf
@@ -106,7 +96,7 @@ theorem reserialize_fixpoint (l : Layer) (b : SBuf) (hI : Gp.C18.Inv b) (hw : wf
   have hcong := serializeSpec_bytes_congr { l' with pseudo := l.pseudo } lf (contents b) true true hsame e3.symm
   rw [hid] at hcong
   have hv2 := serialize_spec { l' with pseudo := l.pseudo } b₂ true true hI₂
-  rw [hc₂, hpay] at hv2
+  rw [hc₂.trans hpay] at hv2
   cases hr : serializeSpec { l' with pseudo := l.pseudo } (contents b) true true with
   | err e => rw [hr] at hcong; cases hcong
   | panic k => rw [hr] at hcong; cases hcong
@@ -116,24 +106,21 @@ theorem reserialize_fixpoint (l : Layer) (b : SBuf) (hI : Gp.C18.Inv b) (hw : wf
     simp only [Res.ok.injEq] at hcong
     obtain ⟨b'', hb'', hcb⟩ := view_ok _ _ _ hv2
     refine ⟨b'', l'', hb'', by rw [hcb, hcong], ?_⟩
-    -- fields of l'': ports kept, length and checksum determined by the bytes
+    -- fields of l'': determined by the eight header bytes
     have hbytes := serializeSpec_ok_bytes _ _ _ _ true true hr
     have hbytes' := serializeSpec_ok_bytes _ _ _ _ true true hid
     rw [hcong, hbytes'] at hbytes
     have hh : header lf = header l'' := List.append_cancel_right hbytes
+    have hwl' := decoded_wf old _ foreign l' false hd
     have hwl'' : wf l'' := by
       simp only [serializeSpec, fixLen, if_true] at hr
       revert hr
       generalize computeChecksum _ _ = r
       cases r <;> intro hr <;> cases hr
-      have hw' := decoded_wf old _ foreign l' false hd
-      exact ⟨hw'.1, hw'.2.1, fixedLength_lt _ _, emitChecksum_lt _⟩
-    have hwlf : wf lf := by
-      obtain ⟨_, _, _, _, _, _, _, _, _, _, _, _, _, hwf⟩ := roundtrip l b hI hw hp hf old foreign
-      rw [hs] at *
-      rename_i hx _ _ _ _ _ _ _ _ _
-      cases hx; exact hwf
-    exact header_inj_of_wf l'' l' lf hwl'' hwlf hh hsame
+      exact ⟨hwl'.1, hwl'.2.1, fixedLength_lt _ _, emitChecksum_lt _⟩
+    obtain ⟨a1, a2, a3, a4⟩ := header_inj l'' lf hwl'' hwlf hh.symm
+    obtain ⟨c1, c2, c3, c4⟩ := hsame
+    exact ⟨a1.trans c1.symm, a2.trans c2.symm, a3.trans c3.symm, a4.trans c4.symm⟩
 
 /-- Without `fits` the claim is not made — and is in fact false: over IPv4 a 65528-byte payload
     wraps the 16-bit Length to 0, which the decoder reads as the jumbogram form. -/
@@ -142,6 +129,6 @@ theorem oversize_length_wraps : fixedLength (.v4 [1, 2, 3, 4] [5, 6, 7, 8]) 6552
 /-! Non-vacuity. -/
 def exL : Layer := { Layer.fresh with srcPort := 53, dstPort := 35181, length := 7, checksum := 1, pseudo := .v6 (List.replicate 16 1) (List.replicate 16 2) }
 example : wf exL ∧ pseudoOk exL.pseudo ∧ fits exL.pseudo 70000 ∧ fits (.v4 [1, 2, 3, 4] [5, 6, 7, 8]) 1472 := by decide
-example : ∃ l t, decodeUdp exL [0, 53, 0x89, 0x6d, 0, 9, 0x75, 0x4a, 0xb8, 0xd8] [] = .ok (l, t) := ⟨_, _, by decide⟩
+example : (decodeUdp exL [0, 53, 0x89, 0x6d, 0, 9, 0x75, 0x4a, 0xb8, 0xd8] []).isOk = true := by decide
 
 end Gp.C06.Udp
